@@ -127,6 +127,17 @@ CLAIMED["C03"] = {
     "ref": "DESIGN.md section 5 (C03)",
 }
 
+CLAIMED["C15"] = {
+    "text": "Proof over a virtual clock: _psposix.wait_pid (both polling loops cut by invariants) returns the exit code "
+            "/ negated signal / None only at an instant >= the exit instant, raises TimeoutExpired(seconds=timeout, pid) "
+            "only past the deadline with the process alive at the last poll and at most 40 ms late, keeps every sleep "
+            "within [0.1 ms, 40 ms], never sleeps for timeout=0, uses WNOHANG exactly when a timeout is given and only "
+            "waits on pid > 0; Process.wait rejects negative timeouts before doing anything and caches the exit code. "
+            "wait_procs() is covered by a bounded virtual-clock simulation (labelled bounded).",
+    "note": "clock and exit oracles assumed (only sleep advances time); floats as reals; EINTR only for blocking waitpid.",
+    "ref": "DESIGN.md section 5 (C15)",
+}
+
 NOT_YET = "check not built yet (work in progress, see DESIGN.md section 7)"
 NA = {}
 
